@@ -501,3 +501,59 @@ func SortedFloats(x []float64) []float64 {
 	sort.Float64s(y)
 	return y
 }
+
+// ---------------------------------------------------------------------------
+// Perturbed exact crossing test (axis-parallel segment vs. triangle soup)
+
+// AxisCrossings counts the triangles crossed by the open segment from p to p+len*e_axis
+// (len > 0).  The query line is shifted by the generic offset off (two components, applied
+// to the two other axes) so that it never passes exactly through a triangle edge that was
+// placed symmetrically about the lattice line; if an orientation predicate is exactly zero
+// nevertheless, ok=false and the caller retries with another offset.  For every crossed
+// triangle, sign reports the sign of the triangle normal's component along +axis.
+func AxisCrossings(tris []Tri, p V3, axis int, length float64, off [2]float64) (count int, signs []int, ok bool) {
+	u, v := (axis+1)%3, (axis+2)%3
+	c := V2{p[u] + off[0], p[v] + off[1]}
+	lo, hi := p[axis], p[axis]+length
+	ok = true
+	for _, t := range tris {
+		a, b, d := V2{t[0][u], t[0][v]}, V2{t[1][u], t[1][v]}, V2{t[2][u], t[2][v]}
+		// bounding box rejection
+		if (a[0] < c[0] && b[0] < c[0] && d[0] < c[0]) || (a[0] > c[0] && b[0] > c[0] && d[0] > c[0]) ||
+			(a[1] < c[1] && b[1] < c[1] && d[1] < c[1]) || (a[1] > c[1] && b[1] > c[1] && d[1] > c[1]) {
+			continue
+		}
+		o1, o2, o3 := Orient2(a, b, c), Orient2(b, d, c), Orient2(d, a, c)
+		if o1 == 0 || o2 == 0 || o3 == 0 {
+			// on an edge line: decisive only if the other two signs already disagree
+			if (o1 > 0 || o2 > 0 || o3 > 0) && (o1 < 0 || o2 < 0 || o3 < 0) {
+				continue
+			}
+			ok = false
+			continue
+		}
+		if !((o1 > 0 && o2 > 0 && o3 > 0) || (o1 < 0 && o2 < 0 && o3 < 0)) {
+			continue
+		}
+		// height of the crossing by barycentric interpolation
+		s := o1 + o2 + o3
+		h := (o2*t[0][axis] + o3*t[1][axis] + o1*t[2][axis]) / s
+		if h <= lo || h >= hi {
+			continue
+		}
+		count++
+		n := t.Normal()[axis]
+		switch {
+		case n > 0:
+			signs = append(signs, 1)
+		case n < 0:
+			signs = append(signs, -1)
+		default:
+			signs = append(signs, 0)
+		}
+	}
+	return
+}
+
+// V3Less is the lexicographic order on V3.
+func V3Less(a, b V3) bool { return less3(a, b) }
